@@ -29,6 +29,10 @@ def run(ctx):
     ctx.not_decided = "nothing beyond the trusted model of socket.recv (returns 1..n bytes, b'' at end of stream, raises on timeout)."
     ctx.assumptions = ["socket.recv(n) returns between 1 and n bytes, b'' only at end of stream, raises socket.timeout on silence",
                        "end-of-stream behaviour is outside the property (reported as NOTICE only)"]
+    reader_rules(ctx, R)
+
+
+def reader_rules(ctx, R):
     blk, lin = R.block_reader, R.line_reader
 
     m1(ctx, R)
